@@ -590,3 +590,116 @@ pub fn rule1(name: &str, item: Item) -> Rule {
 pub fn file_of(rules: Vec<Rule>) -> File {
     File { lets: vec![], prules: vec![], rules, default: vec![] }
 }
+
+// ------------------------------------------------------------------------------------------------
+// traversal helpers
+
+/// visit every CNF of the file in a fixed pre-order
+pub fn visit_cnfs(file: &mut File, f: &mut dyn FnMut(&mut Cnf)) {
+    fn in_query(q: &mut Query, f: &mut dyn FnMut(&mut Cnf)) {
+        for p in q.parts.iter_mut() {
+            if let Part::Filter(c) = p {
+                f(c);
+                in_cnf(c, f);
+            }
+        }
+    }
+    fn in_expr(e: &mut Expr, f: &mut dyn FnMut(&mut Cnf)) {
+        match e {
+            Expr::Query { q, .. } => in_query(q, f),
+            Expr::Call(c) => c.args.iter_mut().for_each(|a| in_expr(a, f)),
+            _ => {}
+        }
+    }
+    fn in_lets(ls: &mut Vec<Let>, f: &mut dyn FnMut(&mut Cnf)) {
+        for l in ls.iter_mut() {
+            in_expr(&mut l.value, f);
+        }
+    }
+    fn in_cnf(c: &mut Cnf, f: &mut dyn FnMut(&mut Cnf)) {
+        for line in c.iter_mut() {
+            for it in line.iter_mut() {
+                match it {
+                    Item::Clause(cl) => {
+                        in_query(&mut cl.q, f);
+                        if let Kind::Binary { rhs, .. } = &mut cl.kind {
+                            in_expr(rhs, f);
+                        }
+                    }
+                    Item::Block { q, lets, body, .. } => {
+                        in_query(q, f);
+                        in_lets(lets, f);
+                        f(body);
+                        in_cnf(body, f);
+                    }
+                    Item::When { cond, lets, body } => {
+                        f(cond);
+                        in_cnf(cond, f);
+                        in_lets(lets, f);
+                        f(body);
+                        in_cnf(body, f);
+                    }
+                    Item::TypeBlock { when, lets, body, .. } => {
+                        if let Some(w) = when {
+                            f(w);
+                            in_cnf(w, f);
+                        }
+                        in_lets(lets, f);
+                        f(body);
+                        in_cnf(body, f);
+                    }
+                    Item::PCall { args, .. } => args.iter_mut().for_each(|a| in_expr(a, f)),
+                    Item::Ref { .. } => {}
+                }
+            }
+        }
+    }
+    in_lets(&mut file.lets, f);
+    for p in file.prules.iter_mut() {
+        f(&mut p.body);
+        in_cnf(&mut p.body, f);
+    }
+    for r in file.rules.iter_mut() {
+        if let Some(w) = &mut r.when {
+            f(w);
+            in_cnf(w, f);
+        }
+        in_lets(&mut r.lets, f);
+        f(&mut r.body);
+        in_cnf(&mut r.body, f);
+    }
+}
+
+
+/// Give every rule, parameterised rule and custom message of the file a prefix (used to make names
+/// globally distinct across several rules files).
+pub fn prefix_names(file: &mut File, prefix: &str) {
+    fn fix_cnf(c: &mut Cnf, prefix: &str) {
+        for line in c.iter_mut() {
+            for it in line.iter_mut() {
+                match it {
+                    Item::Clause(cl) => {
+                        if let Some(m) = &mut cl.msg {
+                            *m = format!("{}{}", prefix, m);
+                        }
+                    }
+                    Item::Ref { name, msg, .. } | Item::PCall { name, msg, .. } => {
+                        *name = format!("{}{}", prefix, name);
+                        if let Some(m) = msg {
+                            *m = format!("{}{}", prefix, m);
+                        }
+                    }
+                    _ => {}
+                }
+            }
+        }
+    }
+    let p = prefix.to_string();
+    visit_cnfs(file, &mut |c| fix_cnf(c, &p));
+    for r in file.rules.iter_mut() {
+        r.name = format!("{}{}", prefix, r.name);
+    }
+    for r in file.prules.iter_mut() {
+        r.name = format!("{}{}", prefix, r.name);
+    }
+}
